@@ -14,7 +14,7 @@ pub const U64: f64 = 1.1102230246251565e-16;
 /// where that x rounds to 1 (~ 1e-8 * sqrt(nu)).
 pub fn tol_p(nu: f64, target: f64) -> f64 {
     let off = (target - 0.5).abs().max(1e-300);
-    1e-10 + (5e-8 * nu.sqrt()).min(1e-16 * nu / off)
+    1e-10 + 2e-15 * nu + (5e-8 * nu.sqrt()).min(1e-16 * nu / off)
 }
 pub const TOL_P_NORMAL: f64 = 1e-12;
 
